@@ -201,6 +201,13 @@ def selFailKey (rule : KeyRule) (earlier : List SelObs) (o : SelObs) : String :=
       then "keyed-record-partition-depends-on-writable-set"
       else if !(ruleHolds rule k o.nAll o.part) then "keyed-pick" else "keyed-pick-unstable"
 
+/-- `ManualPartitioner`: the record goes to the partition number it names (`out = some part`), or is failed
+(`out = none`) exactly when that number is not a partition of the topic. -/
+def manualSelOk (nAll rpart : Int) (out : Option Int) : Bool :=
+  match out with
+  | some part => inRange nAll rpart && part == rpart
+  | none => !(inRange nAll rpart)
+
 /-- `RequiresConsistency(r)` as the interface documents it ("true if a record must hash to the same
 partition even if a partition is down"): a partitioner that maps this record by its key (or, for the
 basic consistent partitioners, by the record alone) must answer true; otherwise any answer is allowed. -/
